@@ -636,6 +636,7 @@ func forgedOffCurve(d, x1, y1 *big.Int, msg []byte) []byte {
 }
 
 func genC13(r *rng, tier string, emit func(string)) {
+	defer c13gGen(r, tier, emit) // byte-level glue (kdf, ZA, assembly of k/S1/S2) against Model.KexGlue, round 12
 	n := 25
 	if tier == "thorough" {
 		n = 400
